@@ -425,7 +425,9 @@ func TestC12Single(t *testing.T) {
 			for _, cp := range closePlans(p) {
 				c := Case{RTOms: p.rto, Mask: p.mask, Delay: p.delay, Noise: p.noise, WErr: werr, Close: cp.kind, CloseK: cp.k}
 				rep.Current(map[string]any{"part": "single", "case": c, "sig_hint": "c12-single:case-never-quiesces(lock-held-or-spin)"})
+				stop := r.Guard(30*time.Second, "c12-single:case-never-quiesces(lock-held-or-spin)", func() any { return c })
 				res := runSingle(t, c)
+				stop()
 				r.Evaluations++
 				classes[res.class]++
 				for _, v := range res.viols {
